@@ -301,7 +301,8 @@ def c27_concretise(rng, case, cid):
     buckets, orig = [], {}
     for b, sym in zip(bks, syms):
         key = "%s/%s/%s" % (sym, tf, ag)
-        cols = [(nm, OF_WIRE[ts], gen_vals(rng, OF_WIRE[ts], b["len"])) for nm, ts in zip(names, b["types"])]
+        mynames = names if b.get("names", "same") == "same" else names[1:] + names[:1]     # the same names in another order
+        cols = [(nm, OF_WIRE[ts], gen_vals(rng, OF_WIRE[ts], b["len"])) for nm, ts in zip(mynames, b["types"])]
         buckets.append({"key": key, "cols": [{"nhex": hx(nm.encode()), "type": drv_t(t), "hex": hx(b"".join(vv))} for nm, t, vv in cols]})
         orig[key + SUFFIX] = cols
     return {"id": cid, "ops": [{"op": "c27_numpy", "x": {"buckets": buckets}}], "case": case, "orig": orig,
@@ -356,7 +357,9 @@ def run_c27(res, tier, rng, binary):
     def handle(c, obs, died):
         case = c["case"]
         replay = {"check": "codec", "prop": "C27", "ops": c["ops"], "model_case": case, "seed": vlib.seed()}
-        desc = "dataset %s" % [(b["len"], b["types"]) for b in case["bks"]]
+        desc = "dataset %s" % [(b["len"], b["types"]) + (("column names rotated",) if b.get("names") == "rot" else ()) for b in case["bks"]]
+        if any(b.get("names") == "rot" for b in case["bks"]):
+            stats["datasets_with_permuted_names"] = stats.get("datasets_with_permuted_names", 0) + 1
         if died is not None:
             v.violation("process died (%s) converting %s: %s" % (died["died"], desc, died["stderr"][-400:]), replay)
             return
